@@ -409,14 +409,18 @@ def do_world(cx, world, idx, thorough, want_diff=True):
         ck.cov["traces_validated_against_impl"] += 1
         want = d_src[1] if fo else d_src[0]
         problem = None
+        if api in ("saveas", "mllcompress") and "cg_open" in raw:
+            cx.dist["not_openable_by_cg_open"] = cx.dist.get("not_openable_by_cg_open", 0) + 1
+            continue          # the mid-level library refuses the file itself (e.g. a dangling link below the root): nothing was copied
         if st == "ok":
             # oracle 1 (model independent): the walk of the source with links treated as requested == the walk of the result
             if d0[1] != "ok" or d0[2] != want[2]:
                 problem = {"oracle": "independent walk of source vs result (links %s)" % ("followed" if fo else "kept"),
                            "first_difference": vlib.first_divergence(want[2], d0[2]), "result_walk_status": d0[1]}
             # oracle 2: a reader that follows every link sees the same tree (when the result's links can resolve at all)
-            elif (y == be or (fo and True)) and not fl["dangling"] and d_src[2][1] == "ok" and \
-                    (y == be or not any(l.startswith("L ") and l.split(" ")[2] != "-" for l in d0[2])):
+            # (same back end only: the HDF5 reader does not chase a link to a link, so views of different back ends differ
+            #  for reasons that belong to C08 / C03)
+            elif y == be and not fl["dangling"] and d_src[2][1] == "ok":
                 if d2[2] != d_src[2][2]:
                     problem = {"oracle": "fully resolved view of source vs result",
                                "first_difference": vlib.first_divergence(d_src[2][2], d2[2])}
@@ -615,6 +619,7 @@ def parse_dump_to_tree(world, follow):
 def do_diff(cx, world, idx, scen, outs, impl, thorough):
     ck, rng, work = cx.ck, cx.ck.rng, cx.ck.work
     src, be = world["src"], world["be"]
+    fl = world["flags"]
     cands = [i for i, (api, y, fo) in enumerate(scen) if impl[i][0] == "ok" and
              (y == be or (fo == 1 and not any(l.startswith("L ") and l.split(" ")[2] != "-" for l in impl[i][2][2])))]
     if not cands:
@@ -622,7 +627,10 @@ def do_diff(cx, world, idx, scen, outs, impl, thorough):
     for i in rng.sample(cands, min(len(cands), 3 if thorough else 2)):
         api, y, fo = scen[i]
         dst = outs[i]
-        follow = 1 if rng.random() < 0.3 else 0
+        # a copy with expanded links equals its source only for a reader that follows links: cgnsdiff -f
+        follow = 1 if (fo == 1 or rng.random() < 0.3) else 0
+        if y != be and fl["chain"]:
+            continue          # link-to-link chains read differently through ADFH (C08), not a matter of the copy
         copy_tree = parse_dump_to_tree(world, fo)
         if copy_tree is None:
             continue
@@ -661,7 +669,7 @@ def do_diff(cx, world, idx, scen, outs, impl, thorough):
             efile = dst + ".edit"
             shutil.copy(os.path.join(work, dst), os.path.join(work, efile))
             lines, eoc, stack = run_ops(cx, ["edit %s %s %s %s" % (efile, kind, hx(pstr(path)), " ".join(args)),
-                                             "dump %s 0" % dst, "dump %s 0" % efile], work)
+                                             "dump %s %d" % (dst, 2 if follow else 0), "dump %s %d" % (efile, 2 if follow else 0)], work)
             sec = sections(lines)
             if eoc != "ok" or len(sec) < 3 or sec[0][1] != "ok":
                 raise vlib.Infra("edit %s %s of %s failed: %s %s" % (kind, pstr(path), efile, eoc, sec[:1]))
@@ -826,6 +834,17 @@ def witnesses(cx):
                            "witness": witness_script("uaf"), "outcome": oc5, "stack": st5})
     elif oc5 != "ok":
         fail(cx, {"be": "adf", "flags": {}, "order": [], "trees": {}}, -1, {"oracle": "compress with 5 other files open", "outcome": oc5, "stack": st5})
+    # 7. outside the default options: -t<tol> compares fabs(a-b) > tol, which is false for a NaN (documented limit, not a finding);
+    #    with the default tolerance the same pair must be reported
+    for v, bits in (("wt1.adf", struct.pack("<d", 2.0)), ("wt2.adf", struct.pack("<Q", 0x7ff8000000000000))):
+        build_files(cx.exe["cgio_h"], work, {"be": "adf", "order": [v], "trees": {v: [N(b"a", b"", "R8", [1], bits)]}}, cx.ck.rng)
+    out0, oc0, err0 = run_tool(cx, "cgnsdiff", ["-d", "wt1.adf", "wt2.adf"], work)
+    outt, oct, errt = run_tool(cx, "cgnsdiff", ["-d", "-t1e-6", "wt1.adf", "wt2.adf"], work)
+    res["tolerance_nan"] = {"default": out0, "with_-t1e-6": outt}
+    if oc0 != "ok" or out0 != ["/a <> /a : data values differ"]:
+        fail(cx, {"be": "adf", "flags": {}, "order": [], "trees": {}}, -1, {"oracle": "cgnsdiff -d reports 2.0 against NaN", "output": out0, "outcome": oc0})
+    if oct == "ok" and outt:
+        cx.n_div += 1; cx.failures.append({"kind": "correspondence", "scenario": "cgnsdiff -t reports a NaN now (C09_diff_tol_nan_refuted describes the code no more)", "output": outt})
     return res
 
 
@@ -837,7 +856,7 @@ def dotvers():
 
 def build_all(cx):
     vlib.build_impl()
-    cx.exe["cgio_h"] = vlib.build_harness("cgio_h", ["cgio_h.c"])
+    cx.exe["cgio_h"] = vlib.build_harness("c09_cgio_h", ["cgio_h.c"])      # private copy: other checks rebuild "cgio_h" concurrently
     cx.exe["ops"] = vlib.build_harness("c09_ops", ["c09_ops.c"])
     cx.exe["lower"] = vlib.build_harness("c09_typed", ["c09_typed.c"])
     for t in ("cgnsdiff", "cgnsconvert"):
